@@ -532,10 +532,10 @@ func c20R6(c *Ctx) {
 		}
 		{
 			// on every path (a nil receiver excepted): no exit before the store
-			hit, path := reachFromE(g.Blocks[0], 0, isReturn, func(in ssa.Instruction) bool {
+			hit, path := reachFromE(g.Blocks[0], 0, isReturn, c.orWrapper("columns.Store", func(in ssa.Instruction) bool {
 				ci, ok := in.(ssa.CallInstruction)
 				return ok && isAtomicOnField(ci, "columns", "Store")
-			}, func(from, to *ssa.BasicBlock) bool {
+			}), func(from, to *ssa.BasicBlock) bool {
 				for _, fc := range edgeFactsTo(from, to) {
 					op, x, y, ok := cmpFact(fc)
 					if ok && op == token.EQL && isNilConst(y) && len(g.Params) > 0 && x == ssa.Value(g.Params[0]) {
